@@ -189,7 +189,7 @@ def check(tier: str) -> Result:
                         rewards.append(alt)
         for rw in rewards:
             t = strip_cast(rw)
-            if not contains(t, Vc):
+            if not contains(t, Vc) and not any(negand(d_) is Vc for d_ in deps(t) if d_.kind == "call"):
                 if name in R4_REFERENCE:
                     res.add("C05.R4", site, fn, "when the action is invalid the reward is the invalid-move reward (not overridden by another condition)", False,
                             f"reward {txt(t, 3, 90)} no longer depends on the validity value ({R4_REFERENCE[name]}): an invalid action is rewarded like a valid one")
@@ -221,7 +221,7 @@ def check(tier: str) -> Result:
                 elif any(len(_conj(d)) > 1 and any(negand(strip_cast(c_)) is Vc or is_negation(strip_cast(c_), Vc) for c_ in _conj(d)) for d in ds):
                     verdict = (False, f"the invalid-move reward is selected on {txt(p_, 3, 90)}: an invalid action receives it only when another condition holds as well")
                     break
-                elif contains(p_, Vc):
+                elif contains(p_, Vc) or any(negand(d_) is Vc for d_ in deps(p_) if d_.kind == "call"):
                     verdict = (None, f"condition {txt(p_, 3, 80)} mixes validity with other tests: not decided")
                     break
                 else:
